@@ -43,10 +43,107 @@ theorem agreed_version (lo hi v w : Nat) (h : mutualVersionLim lo hi v = some w)
 /-- the dispatcher refuses the hello whenever `mutualVersion` does, in every server mode -/
 theorem dispatchLim_refuses (lo hi v : Nat) (m : Mode) (h : mutualVersionLim lo hi v = none) :
     dispatchLim lo hi m v = .reject := by
-  cases m <;> simp [dispatchLim, h]
+  cases m <;> simp [dispatchLim, gmServerVersion, h]
 
-/-- non-vacuity: a GMSSL-only window answers 0x0303 with 0x0101, refuses 0x0200 -/
+/-- non-vacuity: `mutualVersion` with a GMSSL-only window answers 0x0303 with 0x0101 (the TLS-only server would go
+    on with it; the GMSSL server does not, see `gm_only_server_accepts_only_gmssl`), refuses 0x0200 -/
 example : mutualVersionLim 0x0101 0x0101 0x0303 = some 0x0101 ∧ mutualVersionLim 0x0101 0x0101 0x0200 = none := by
   constructor <;> rfl
+
+-- the GMSSL server handshake implements one version (repair "gmvers") ---------------------------------------------------
+
+/-- the version test of the GMSSL handshake, for every window: it passes iff the client_version is 0x0101 and the
+    window contains 0x0101, and then the connection version is 0x0101 -/
+theorem gmServerVersion_lim (lo hi v : Nat) :
+    gmServerVersion (mutualVersionLim lo hi v) v =
+      if v = versionGMSSL ∧ lo ≤ versionGMSSL ∧ versionGMSSL ≤ hi then some versionGMSSL else none := by
+  unfold gmServerVersion mutualVersionLim versionGMSSL versionSSL30
+  by_cases hv : v = 0x0101
+  · subst hv
+    by_cases h1 : 0x0101 < lo
+    · have : ¬ (lo ≤ 0x0101) := by omega
+      simp [h1, this]
+    · by_cases h2 : 0x0101 > hi
+      · have a : ¬ (0x0101 ≤ hi) := by omega
+        have b : hi ≠ 0x0101 := by omega
+        simp [h1, h2, a, b]
+      · have a : lo ≤ 0x0101 := by omega
+        have b : 0x0101 ≤ hi := by omega
+        simp [h1, h2, a, b]
+  · simp only [hv, false_and, if_false]
+    split <;> first | rfl | (split <;> first | rfl | (split <;> rfl))
+
+/-- THE REPAIRED BEHAVIOUR (false before the repair: e.g. `lo = 0x0101, hi = 0x0303, v = 0x0300` used to give
+    `.gm 0x0300`).  A server in GMSSL-only mode (`serverHandshakeStateGM.readClientHello`), for every client_version
+    `v` and every `Config.MinVersion` / `Config.MaxVersion` (`lo` = `minVersion()`, `hi` = `maxVersion()`):
+    it proceeds iff `v = 0x0101` and the configured window contains 0x0101, and then at connection version 0x0101;
+    in every other case — any other client_version, whether `mutualVersion` refuses, accepts or clamps it, and every
+    client_version when the window excludes 0x0101 (`lo > 0x0101`, or `hi < 0x0101`, which would clamp 0x0101 to a
+    value that is no protocol) — the hello is answered with the protocol_version alert.  It never runs TLS code. -/
+theorem gm_only_server_accepts_only_gmssl (lo hi v : Nat) :
+    dispatchLim lo hi .gmOnly v =
+      if v = 0x0101 ∧ lo ≤ 0x0101 ∧ 0x0101 ≤ hi then .gm 0x0101 else .reject := by
+  have h := gmServerVersion_lim lo hi v
+  unfold versionGMSSL at h
+  by_cases c : v = 0x0101 ∧ lo ≤ 0x0101 ∧ 0x0101 ≤ hi
+  · rw [if_pos c] at h; simp only [dispatchLim, h]; rw [if_pos c]
+  · rw [if_neg c] at h; simp only [dispatchLim, h]; rw [if_neg c]
+
+/-- the same as an equivalence: some GMSSL handshake is started iff the client_version is 0x0101 and the window
+    contains it, and the version it runs at is 0x0101 -/
+theorem gm_only_server_proceeds_iff (lo hi v w : Nat) :
+    dispatchLim lo hi .gmOnly v = .gm w ↔ (v = 0x0101 ∧ lo ≤ 0x0101 ∧ 0x0101 ≤ hi ∧ w = 0x0101) := by
+  rw [gm_only_server_accepts_only_gmssl]
+  by_cases c : v = 0x0101 ∧ lo ≤ 0x0101 ∧ 0x0101 ≤ hi
+  · rw [if_pos c]
+    constructor
+    · intro h; injection h with h; exact ⟨c.1, c.2.1, c.2.2, h.symm⟩
+    · intro h; rw [h.2.2.2]
+  · rw [if_neg c]
+    constructor
+    · intro h; cases h
+    · intro h; exact absurd ⟨h.1, h.2.1, h.2.2.1⟩ c
+
+/-- with the package defaults (window 0x0101..0x0303): the GMSSL-only server proceeds iff client_version = 0x0101 -/
+theorem gm_only_server_default (v w : Nat) :
+    dispatchLim (cfgMin 0) (cfgMax 0) .gmOnly v = .gm w ↔ (v = 0x0101 ∧ w = 0x0101) := by
+  rw [gm_only_server_proceeds_iff]
+  unfold cfgMin cfgMax versionGMSSL versionTLS12
+  simp
+
+/-- the auto-switch server reaches the GMSSL code under the same condition (`processClientHelloGM` has the same
+    test), so the two modes agree on which hellos the GMSSL handshake serves -/
+theorem auto_gm_agrees_with_gm_only (lo hi v w : Nat) :
+    dispatchLim lo hi .auto v = .gm w ↔ dispatchLim lo hi .gmOnly v = .gm w := by
+  by_cases hv : v = versionGMSSL
+  · simp [dispatchLim, hv]
+  · have hv2 : ¬ v = 0x0101 := hv
+    rw [gm_only_server_proceeds_iff]
+    simp only [dispatchLim, if_neg hv]
+    constructor
+    · intro h
+      split at h
+      · split at h <;> cases h
+      · cases h
+    · intro h; exact absurd h.1 hv2
+
+/-- whatever the answer to the hello, a handshake served by the GMSSL code has connection version 0x0101: the key
+    schedule (`prfForVersion`), the Finished hash and the record protection all see the one version GM/T 0024
+    defines -/
+theorem gm_path_version (lo hi v w : Nat) (m : Mode) (h : dispatchLim lo hi m v = .gm w) : w = 0x0101 := by
+  cases m with
+  | gmOnly => exact ((gm_only_server_proceeds_iff lo hi v w).mp h).2.2.2
+  | auto => exact ((gm_only_server_proceeds_iff lo hi v w).mp ((auto_gm_agrees_with_gm_only lo hi v w).mp h)).2.2.2
+  | tlsOnly =>
+    simp only [dispatchLim] at h
+    split at h <;> cases h
+
+/-- non-vacuity: the default window serves 0x0101 and refuses 0x0300, 0x0303, 0x0304 (all completed before the
+    repair); a window without 0x0101 refuses 0x0101 itself -/
+example : dispatchLim 0x0101 0x0303 .gmOnly 0x0101 = .gm 0x0101 ∧ dispatchLim 0x0101 0x0303 .gmOnly 0x0300 = .reject ∧
+    dispatchLim 0x0101 0x0303 .gmOnly 0x0303 = .reject ∧ dispatchLim 0x0101 0x0303 .gmOnly 0x0304 = .reject ∧
+    dispatchLim 0x0101 0x0100 .gmOnly 0x0101 = .reject ∧ dispatchLim 0x0102 0x0303 .gmOnly 0x0101 = .reject ∧
+    dispatchLim 0x0101 0x0101 .gmOnly 0x0303 = .reject := by
+  refine ⟨?_, ?_, ?_, ?_, ?_, ?_, ?_⟩ <;> decide
 
 end Props.C15Limits
